@@ -6,6 +6,20 @@ def rand_data(rng, n):
     return list(rng.bytes(n))
 
 
+def structured_data(rng, f, t, z):
+    """object contents with repetition: all zero, one constant byte, or periodic with the length of a block
+    (adjacent source blocks then have identical bytes) -- caching or de-duplication keyed on content shows here"""
+    kind = rng.below(4)
+    if kind == 0:
+        return [0] * f
+    if kind == 1:
+        return [rng.below(256)] * f
+    kt = -(-f // t)
+    period = max(1, (kt // max(1, z)) * t) if kind == 2 else max(1, t)
+    base = list(rng.bytes(period))
+    return [base[i % period] for i in range(f)]
+
+
 def block_esis(rng, k, extra, repair_frac, esi_hi=(1 << 24) - 1):
     """a set of k+extra distinct ESIs of a K-symbol block: a source/repair mix"""
     n = max(0, k + extra)
